@@ -8,6 +8,7 @@ CONSTANTS
   Periodic = TRUE
   Radii = {1}
   MaxN = 4
+  OpenAxes = {}
   M = 0
 INVARIANT Subsequence
 INVARIANT InRange
